@@ -16,6 +16,10 @@ RULE = ("case = well-formed interleaved label sequence of 2-4 tasks (started by 
 C = "ctor=110000 "
 
 
+def model_input(case: str, out: str) -> str:
+    return sc.strip_holds(case)      # where a scope object was constructed is invisible to the model (and must be to the code)
+
+
 def corpus():
     return [
         # shared long-lived state instances on top of many short-lived root scopes
